@@ -709,9 +709,14 @@ class Obligations:
         for _, l, r in out:
             free_vars(l, vs); free_vars(r, vs)
         used_h = []
-        for v, b in hyps:
-            if v in vs:
-                used_h.append((v, b)); free_vars(b, vs)
+        changed = True
+        while changed:
+            changed = False
+            for v, b in hyps:
+                if v in vs and (v, b) not in used_h:
+                    used_h.append((v, b)); free_vars(b, vs)
+                    changed = True
+        used_h = [h for h in hyps if h in used_h]
         calls = set()
         for _, l, r in out:
             calls_of(l, calls); calls_of(r, calls)
